@@ -35,11 +35,20 @@ SHORT = {"file.a": "a", "file.b": "b", "scripts.s": "s", "apps.p": "p", "apps.p.
          "modules.k.u": "u", "modules.k.v": "v", "modules.m": "m", "modules.n": "n"}
 DATA = ["x", "y", "_p"]
 FUNCS = ["f", "g", "h"]                                        # f may call g, h; g may call h; h calls nothing
+DECOS = ["d", "e"]             # plain decorators / factories: def d(_fn=None) returning a closure w<d> over _fn, or _fn itself
+JOBS = ["j1", "j2", "j3", "j4"]  # entry points of created tasks: each defined in ONE file, target of at most ONE task.create, first
+                               # statement = its own sleep of 16 * 2**(i-1) units (no two evaluators ever wake at the same instant)
+STATEVAR = "pyscript.vfon"     # state variable named in every task.wait_until expression (both decorator subsystems only watch
+                               # expressions that name a state variable); set to '1' before the integration starts
 UNDEF = "<undef>"
 D0 = 3                         # depth budget of an entry point (ContextsCore!D0)
-UNIT = 2.0 ** -20              # one model time unit in seconds: sleeps are multiples of 1024 units (about 1 ms), every
-                               # trigger function starts with its own sleep of k units, so no two evaluators ever wake at
-                               # the same instant (sums of binary fractions are exact)
+UNIT = 2.0 ** -12              # one model time unit in seconds (about 0.24 ms): sleeps and wait_until timeouts are multiples of 1024
+                               # units, every trigger function starts with its own sleep of k units and every job with its own
+                               # 16 * 2**i, so no two evaluators ever wake at the same instant (sums of binary fractions are exact).
+                               # The unit is far above one microsecond: the decorator manager implements the timeout of task.wait_until
+                               # as a time trigger on datetimes (microsecond resolution), so a timed-out evaluator resumes up to a
+                               # microsecond off per timeout - the order of resumptions must not depend on that
+WAIT = 50000.0                 # virtual seconds the driver waits for all evaluators to finish (virtual time costs nothing)
 
 
 # ---------------------------------------------------------------------------------------------
@@ -61,6 +70,30 @@ def importable(c, files):
     return out
 
 
+def mkdef(f, body, trig="", deco="", dvia="", kind="std"):
+    return {"op": "def", "f": f, "body": body, "trig": trig, "deco": deco, "dvia": dvia, "kind": kind}
+
+
+def norm_stmts(stmts):
+    """defaults for the fields added in round 3 (hand-written programs, replay files of earlier rounds)."""
+    for s in stmts:
+        if s["op"] == "def":
+            s.setdefault("deco", "")
+            s.setdefault("dvia", "")
+            s.setdefault("kind", "std")
+        if s["op"] == "task":
+            s.setdefault("via", "")
+        if s["op"] in ("def", "ldef"):
+            norm_stmts(s["body"])
+    return stmts
+
+
+def norm_prog(p):
+    for f in p["files"].values():
+        norm_stmts(f["body"])
+    return p
+
+
 def gen_program(r, pid, mask_rel_member=False):
     nauto = r.choice([1, 1, 2])
     autos = sorted(r.sample(AUTO, nauto))
@@ -74,57 +107,116 @@ def gen_program(r, pid, mask_rel_member=False):
         files.discard(r.choice(sorted(files - set(autos) - {"modules.k"})))
     files = sorted(files)
     defined = {}            # ctx -> names textually defined at top level by set / def
+    decos_in = {}           # ctx -> decorator names bound in its table when its load ends (own defs, from / star imports)
+    closure_of = {}         # (ctx, decorator name) -> True when the decorator returns its closure (False: returns _fn itself)
     bodies = {}
     events = []
     tagn = [0]
+    # jobs: where each is defined; every job is the target of at most one task.create in the whole program
+    jobs = JOBS[:r.choice([0, 1, 2, 2, 3, 4])]
+    job_file = {j: r.choice(files) for j in jobs}
+    free_jobs = list(jobs)
+    alias_of = {}
+    bare_names = set()      # job names imported by name / star into the file being generated
+    deco_trig = [False]     # at most one decorated trigger function per program (its wrapper runs before the function's own first sleep)
 
     def tag(c, what):
         tagn[0] += 1
         return "%s.%s%d" % (SHORT[c], what, tagn[0])
 
-    def fbody(c, fname, aliases, trigger):
-        """random function body; locs first; calls respect the f > g > h order."""
+    def xval(x):
+        """a value the global x has in some file of the program (so that an expression over x is true in some contexts only)."""
+        return "%s.%s0" % (SHORT[r.choice(files)], x)
+
+    def task_stmt(c, aliases, minjob):
+        """task.create of a job nobody else starts (jobs only start jobs of higher index: no task loops)."""
+        cand = [j for j in free_jobs if JOBS.index(j) >= minjob]
+        # mostly jobs whose name resolves here: defined in this file, reachable through a module object, imported by name / star
+        near = [j for j in cand if job_file[j] == c or job_file[j] in alias_of.values() or j in bare_names]
+        if near and r.random() < 0.85:
+            cand = near
+        if not cand:
+            return None
+        j = r.choice(cand)
+        free_jobs.remove(j)
+        via = ""
+        for a in aliases:
+            if alias_of.get(a) == job_file[j] and (j not in bare_names or r.random() < 0.5):
+                via = a
+        return {"op": "task", "f": j, "via": via}
+
+    def fbody(c, fname, aliases, trigger, entry=None, wrapper=False):
+        """random function body; locs first; calls respect the f > g > h order.  entry = None | minimal index of the jobs this
+        entry point (trigger function / job) may start; wrapper: body of a closure made by a decorator (no plain calls: the
+        function it wraps keeps the f > g > h order)."""
         body = []
         setnames = set()
         locnames = set()
         for x in r.sample(DATA, r.choice([0, 1, 1])):
             locnames.add(x)
             body.append({"op": "loc", "x": x, "v": "%s.%s.l" % (SHORT[c], fname)})
-        callee = FUNCS[FUNCS.index(fname) + 1:] if fname in FUNCS else FUNCS
+        callee = FUNCS[FUNCS.index(fname) + 1:] if fname in FUNCS else ([] if wrapper else FUNCS)
         ndcall = 0
-        for _ in range(r.randint(1, 4)):
+        fcalled = not wrapper
+        for _ in range(r.randint(1, 4) + (1 if wrapper else 0)):
             k = r.random()
-            if k < 0.12:
+            if wrapper and not fcalled and k < 0.45:
+                fcalled = True
+                body.append({"op": "fcall"})
+            elif k < 0.10:
                 body.append({"op": "sleep", "t": 1024 * r.randint(1, 8)})           # suspends: other evaluators run meanwhile
-            elif k < 0.27 and ndcall == 0:
-                # depth-guarded call, free of the f > g > h order: recursion, re-entrant chains, callbacks across files
+            elif k < 0.22 and ndcall == 0:
+                # depth-guarded call, free of the f > g > h order: recursion, re-entrant chains, callbacks across files, hooks
                 ndcall += 1
-                tgt = r.choice([fname if fname in FUNCS else "f", "_cb"] + FUNCS)
-                body.append({"op": "dcall", "f": tgt, "via": r.choice([""] + aliases) if tgt != "_cb" and r.random() < 0.4 else "",
+                tgt = r.choice([fname if fname in FUNCS else "f", "_cb", "hk"] + FUNCS)
+                body.append({"op": "dcall", "f": tgt, "via": r.choice([""] + aliases) if tgt not in ("_cb", "hk") and r.random() < 0.4 else "",
                              "cb": r.choice(["", "_cb"] + FUNCS)})
-            elif k < 0.40:
+            elif k < 0.33:
                 x = r.choice([d for d in DATA if d not in locnames] or ["x"])
                 if x in locnames:
                     continue
                 setnames.add(x)
                 body.append({"op": "set", "x": x, "v": "%s.%s.%s%d" % (SHORT[c], fname, x, r.randint(1, 9))})
-            elif k < 0.58:
+            elif k < 0.46:
                 body.append({"op": "read", "x": r.choice(DATA + FUNCS[:1]), "tag": tag(c, fname + ".r")})
-            elif k < 0.74 and callee:
+            elif k < 0.58 and callee:
                 via = r.choice([""] + aliases) if r.random() < 0.4 else ""
                 if r.random() < 0.5:
                     body.append({"op": "trycall", "f": r.choice(callee), "via": via, "tag": tag(c, fname + ".t")})
                 else:
                     body.append({"op": "call", "f": r.choice(callee), "via": via})
-            elif k < 0.82:
+            elif k < 0.64:
                 body.append({"op": "raise"})
                 break
-            elif k < 0.91 and aliases:
+            elif k < 0.76:
+                # context-bound functions: closures over the evaluator that runs this code
+                kk = r.random()
+                if kk < 0.4:
+                    body.append({"op": "getctx", "tag": tag(c, fname + ".gc")})
+                elif kk < 0.6:
+                    body.append({"op": "listctx", "tag": tag(c, fname + ".lc")})
+                else:
+                    x = r.choice(DATA)
+                    body.append({"op": "wexpr", "x": x, "v": xval(x), "t": 1024 * r.randint(1, 4), "tag": tag(c, fname + ".wx")})
+            elif k < 0.82 and entry is not None:
+                st = task_stmt(c, aliases, entry)
+                if st:
+                    body.append(st)
+            elif k < 0.90 and aliases:
                 body.append({"op": "readattr", "m": r.choice(aliases), "x": r.choice(DATA), "tag": tag(c, fname + ".ra")})
-            elif aliases:
+            elif k < 0.96 and aliases:
                 body.append({"op": "setattr", "m": r.choice(aliases), "x": r.choice(DATA[:2]), "v": "%s.%s.sa%d" % (SHORT[c], fname, r.randint(1, 9))})
-        if trigger and callee and r.random() < 0.6 and (not body or body[-1]["op"] != "raise"):
-            body.append({"op": "task", "f": r.choice(callee)})          # created tasks respect the f > g > h order too: no task loops
+            elif aliases:
+                body.append({"op": "sethook", "m": r.choice(aliases), "f": r.choice(FUNCS)})
+        if entry is not None and r.random() < 0.6 and not any(t["op"] == "task" for t in body):
+            st = task_stmt(c, aliases, entry)
+            if st:                                                   # anywhere: the creator goes on (or ends) while the task runs
+                body.insert(r.randint(0, len(body) - (1 if body and body[-1]["op"] == "raise" else 0)), st)
+        if wrapper and not fcalled and r.random() < 0.8 and (not body or body[-1]["op"] != "raise"):
+            body.append({"op": "fcall"})
+        if trigger and callee and r.random() < 0.5 and (not body or body[-1]["op"] != "raise"):
+            # the creator ends here: the task inherits its place in time.  created tasks respect the f > g > h order too
+            body.append({"op": "task", "f": r.choice(callee), "via": r.choice([""] + aliases) if r.random() < 0.3 else ""})
         return body
 
     # generate lazily loaded files first (their defined names are needed by `from` imports)
@@ -136,6 +228,9 @@ def gen_program(r, pid, mask_rel_member=False):
             body.append({"op": "set", "x": x, "v": "%s.%s0" % (SHORT[c], x)})
             names.append(x)
         aliases = []
+        alias_of.clear()
+        bare_names.clear()
+        bare_decos = set()       # decorator names usable as bare names here
         imps = importable(c, files)
         r.shuffle(imps)
         for (t, alt, leaf) in imps:
@@ -147,39 +242,112 @@ def gen_program(r, pid, mask_rel_member=False):
                     if form == "mod":
                         st["as"] = leaf or (t.split(".", 1)[1] if r.random() < 0.7 else "mm")
                         aliases.append(st["as"])
+                        alias_of[st["as"]] = t
                     elif form == "from":
                         avail = defined.get(t, [])
                         if not avail:
                             continue
                         st["names"] = sorted(r.sample(avail, r.randint(1, min(2, len(avail)))))
+                        if alt == t:
+                            bare_decos |= {n for n in st["names"] if n in DECOS}
+                            bare_names.update(n for n in st["names"] if n in JOBS)
+                    elif alt == t:
+                        bare_decos |= decos_in.get(t, set())
+                        bare_names.update(n for n in defined.get(t, []) if n in JOBS)
                     body.append(st)
         aliases = sorted(set(aliases))
+        # decorators / factories defined here: def d(_fn=None): <pre>; def wd(_d, _cb): <body around _fn(_d, _cb)>; return wd | _fn
+        for dn in r.sample(DECOS, r.choice([0, 0, 1, 1, 2]) if c not in autos else r.choice([0, 0, 0, 1])):
+            pre = []
+            for _ in range(r.choice([0, 0, 1, 2])):
+                k = r.random()
+                if k < 0.4:
+                    pre.append({"op": "set", "x": r.choice(DATA), "v": "%s.%s.%d" % (SHORT[c], dn, r.randint(1, 9))})
+                elif k < 0.7:
+                    pre.append({"op": "read", "x": r.choice(DATA), "tag": tag(c, dn + ".r")})
+                else:
+                    pre.append({"op": "getctx", "tag": tag(c, dn + ".gc")})
+            if r.random() < 0.85:
+                wn = "w" + dn
+                pre += [{"op": "ldef", "f": wn, "body": fbody(c, wn, aliases, False, wrapper=True)}, {"op": "ret", "x": wn}]
+                closure = True
+            else:
+                pre.append({"op": "ret", "x": "_fn"})
+                closure = False
+            body.append(mkdef(dn, pre, kind="deco"))
+            names.append(dn)
+            bare_decos.add(dn)
+            closure_of[(c, dn)] = closure
+        # decorators visible at this point: [(name, via, file that defines it or None when unknown)]
+        usable = [(d, "") for d in sorted(bare_decos)]
+        for a in aliases:
+            t = alias_of[a]
+            usable += [(d, a) for d in sorted(decos_in.get(t, set())) if [s for s in bodies.get(t, []) if s["op"] == "def" and s["f"] == d]]
+
+        def decorate(fname, fb, trig=""):
+            """statements defining fname: plain, @d syntax, explicit application, or a factory call instead of a def."""
+            if usable and r.random() < 0.45:
+                d, via = r.choice(usable)
+                how = r.choice(["syntax", "syntax", "explicit", "factory"]) if not trig else "syntax"
+                if how == "syntax":
+                    return [mkdef(fname, fb, trig, d, via)]
+                if how == "explicit":
+                    return [mkdef(fname, fb), {"op": "bindcall", "x": fname, "f": d, "via": via, "arg": fname}]
+                # a factory call must return a function: only decorators known to return their closure
+                src = alias_of[via] if via else None
+                known = [cc for (cc, dd), cl in closure_of.items() if dd == d and cl and (src is None or cc == src)]
+                allc = [cc for (cc, dd), cl in closure_of.items() if dd == d and (src is None or cc == src)]
+                if known and len(known) == len(allc):
+                    return [{"op": "bindcall", "x": fname, "f": d, "via": via, "arg": ""}]
+                return [mkdef(fname, fb, trig, d, via)]
+            return [mkdef(fname, fb, trig)]
+
         nfun = r.randint(1, 3) if c not in autos else r.randint(1, 2)
         for fname in r.sample(FUNCS, nfun):
-            body.append({"op": "def", "f": fname, "body": fbody(c, fname, aliases, False), "trig": ""})
+            body += decorate(fname, fbody(c, fname, aliases, False))
             names.append(fname)
+        # jobs defined here: entry points of created tasks only (nothing calls them)
+        for j in jobs:
+            if job_file[j] == c:
+                body.append(mkdef(j, [{"op": "sleep", "t": 16 * 2 ** JOBS.index(j)}] + fbody(c, j, aliases, True, entry=JOBS.index(j) + 1)))
+                names.append(j)
         # trigger functions: uniquely named (nothing calls them: tasks are only created in the event phase)
         if c in autos:
             for _ in range(r.choice([0, 1, 1, 2])):
                 trig = "ev%d" % (len(events) + 1)
                 events.append(trig)
-                body.append({"op": "def", "f": "t%d" % len(events), "trig": trig,
-                             "body": [{"op": "sleep", "t": len(events)}] + fbody(c, "t%d" % len(events), aliases, True)})
+                tname = "t%d" % len(events)
+                if usable and not deco_trig[0] and r.random() < 0.3:
+                    deco_trig[0] = True
+                    d, via = r.choice(usable)
+                    # no task as last statement: the wrapper goes on after the function returns
+                    tb = [{"op": "sleep", "t": len(events)}] + fbody(c, tname, aliases, False, entry=0)
+                    body.append(mkdef(tname, tb, trig, d, via))
+                else:
+                    body.append(mkdef(tname, [{"op": "sleep", "t": len(events)}] + fbody(c, tname, aliases, True, entry=0), trig))
         defined[c] = sorted(set(names))
+        decos_in[c] = set(bare_decos)
         # top-level actions
         for _ in range(r.randint(1, 5)):
             k = r.random()
             if k < 0.3:
                 body.append({"op": "trycall", "f": r.choice(FUNCS), "via": r.choice([""] + aliases) if r.random() < 0.4 else "",
                              "tag": tag(c, "t")})
-            elif k < 0.55:
+            elif k < 0.52:
                 body.append({"op": "read", "x": r.choice(DATA + FUNCS + aliases), "tag": tag(c, "r")})
-            elif k < 0.7 and aliases:
+            elif k < 0.65 and aliases:
                 body.append({"op": "readattr", "m": r.choice(aliases), "x": r.choice(DATA + FUNCS), "tag": tag(c, "ra")})
-            elif k < 0.8 and aliases:
+            elif k < 0.74 and aliases:
                 body.append({"op": "setattr", "m": r.choice(aliases), "x": r.choice(DATA[:2]), "v": "%s.sa%d" % (SHORT[c], r.randint(1, 9))})
-            elif k < 0.9:
+            elif k < 0.79 and aliases and [n for n in names if n in FUNCS]:
+                body.append({"op": "sethook", "m": r.choice(aliases), "f": r.choice([n for n in names if n in FUNCS])})
+            elif k < 0.88:
                 body.append({"op": "set", "x": r.choice(DATA), "v": "%s.%d" % (SHORT[c], r.randint(1, 9))})
+            elif k < 0.93:
+                x = r.choice([n for n in names if n in DATA])           # an expression over an unbound name raises: not at file level
+                body.append({"op": "wexpr", "x": x, "v": xval(x), "t": 1024 * r.randint(1, 4), "tag": tag(c, "wx")})
+            elif k < 0.96:
+                body.append({"op": "listctx", "tag": tag(c, "lc")})
             else:
                 body.append({"op": "getctx", "tag": tag(c, "gc")})
         # documented context switching (discouraged in files, but documented): only towards a context loaded before
@@ -230,16 +398,32 @@ def render_stmts(stmts, ind, infunc):
                 out.append(p + "from %s%s import %s" % (dots, leaf, ", ".join(s["names"])))
             else:
                 out.append(p + "from %s%s import *" % (dots, leaf))
-        elif op == "def":
-            if s["trig"]:
+        elif op in ("def", "ldef"):
+            if s.get("trig"):
                 out.append(p + "@event_trigger(%r)" % s["trig"])
-            out.append(p + "def %s(_d=%d, _cb=None):" % (s["f"], D0))
+            if s.get("deco"):
+                out.append(p + "@%s" % ("%s.%s" % (s["dvia"], s["deco"]) if s.get("dvia") else s["deco"]))
+            if s.get("kind") == "deco":
+                out.append(p + "def %s(_fn=None):" % s["f"])          # plain decorator / factory
+            else:
+                out.append(p + "def %s(_d=%d, _cb=None):" % (s["f"], D0))
             gl = sorted({t["x"] for t in s["body"] if t["op"] == "set"})
             if gl:
                 out.append(p + "    global " + ", ".join(gl))
             out += render_stmts(s["body"], ind + 4, True) or [p + "    pass"]
-            if not s["body"] and not gl:
-                pass
+        elif op == "ret":
+            out.append(p + "return %s" % s["x"])
+        elif op == "fcall":
+            out += [p + "if _fn is not None:", p + "    _fn(_d, _cb)"]
+        elif op == "bindcall":
+            out.append(p + "%s = %s(%s)" % (s["x"], "%s.%s" % (s["via"], s["f"]) if s["via"] else s["f"], s["arg"]))
+        elif op == "sethook":
+            out.append(p + "%s.hk = %s" % (s["m"], s["f"]))
+        elif op == "listctx":
+            out.append(p + "vf.rec('R', %r, pyscript.list_global_ctx()[0])" % s["tag"])
+        elif op == "wexpr":
+            out += [p + "_r = task.wait_until(state_trigger=\"%s == '1' and %s == '%s'\", timeout=%r)" % (STATEVAR, s["x"], s["v"], s["t"] * UNIT),
+                    p + "vf.rec('R', %r, _r['trigger_type'])" % s["tag"]]
         elif op == "call":
             out.append(p + ("%s.%s(_d)" % (s["via"], s["f"]) if s["via"] else "%s(_d)" % s["f"]))
         elif op == "sleep":
@@ -258,8 +442,8 @@ def render_stmts(stmts, ind, infunc):
                     p + "        vf.rec('R', %r, 'ok')" % s["tag"], p + "    except Exception:",
                     p + "        vf.rec('R', %r, 'caught')" % s["tag"]]
         elif op == "task":
-            out += [p + "try:", p + "    _tmp = %s" % s["f"], p + "except NameError:", p + "    pass", p + "else:",
-                    p + "    task.create(_tmp)"]
+            out += [p + "try:", p + "    _tmp = %s" % ("%s.%s" % (s["via"], s["f"]) if s.get("via") else s["f"]),
+                    p + "except (NameError, AttributeError):", p + "    pass", p + "else:", p + "    task.create(_tmp)"]
         elif op == "setctx":
             out.append(p + "pyscript.set_global_ctx(%r)" % s["name"])
         elif op == "getctx":
@@ -290,7 +474,8 @@ def run_program(prog):
             return {"k": "mod", "ctx": mods.get(id(v), "?unregistered:" + getattr(v, "__name__", "?"))}
         fn = getattr(v, "func", None)
         if fn is not None and hasattr(fn, "global_ctx"):
-            return {"k": "func", "ctx": fn.global_ctx.get_name(), "name": fn.get_name()}
+            # the name written in the def statement (the integration renames a decorated function object; names are not C11's business)
+            return {"k": "func", "ctx": fn.global_ctx.get_name(), "name": fn.func_def.name}
         return {"k": "other", "v": type(v).__name__}
 
     async def body(w):
@@ -298,7 +483,7 @@ def run_program(prog):
         import asyncio
         for e in prog["events"]:            # one burst: the triggered functions run as concurrent evaluators
             w.hass.bus.async_fire(e)
-        await asyncio.sleep(30)             # virtual time: every sleeping evaluator finishes
+        await asyncio.sleep(WAIT)           # virtual time: every sleeping evaluator finishes
         await w.settle()
         recs = w.take()
         mods = {id(g.module): n for n, g in GlobalContextMgr.contexts.items() if g.module is not None}
@@ -312,14 +497,18 @@ def run_program(prog):
         tabs = {}
         for n, g in GlobalContextMgr.contexts.items():
             tabs[n] = {k: conv(v, mods) for k, v in g.global_sym_table.items()
-                       if isinstance(k, str) and k.isidentifier() and not k.startswith("__") and k != "_tmp"}
+                       if isinstance(k, str) and k.isidentifier() and not k.startswith("__") and k not in ("_tmp", "_r")}
         obs.update(tabs=tabs, log=log, inst=inst)
 
     if prog.get("cwd"):
         os.makedirs(prog["cwd"], exist_ok=True)
         os.chdir(prog["cwd"])
+    async def pre(hass):
+        hass.states.async_set(STATEVAR, "1")
+
+    norm_prog(prog)
     world.run(render(prog), body, realfs=True, apps_cfg={"p": {}} if "apps.p" in prog["files"] else {},
-              allow_all_imports=False, legacy=prog.get("legacy", False))
+              allow_all_imports=False, legacy=prog.get("legacy", False), pre=pre)
     return {"id": prog["pid"], "prog": {"files": prog["files"], "order": prog["order"], "events": prog["events"]}, "obs": obs,
             "masked": prog.get("masked", False), "legacy": prog.get("legacy", False)}
 
@@ -402,6 +591,84 @@ def reentrant_programs():
     return out
 
 
+def _variants(named):
+    out = []
+    for name, p in named:
+        for legacy in (False, True):
+            q = norm_prog(copy.deepcopy(p))
+            q.update(pid="%s/%s" % (name, "legacy" if legacy else "dm"), legacy=legacy, masked=True)
+            out.append(q)
+    return out
+
+
+def ctxbound_programs():
+    """Context-bound functions in created tasks (re-executed on every run, both decorator subsystems): (1) a task created by a.py
+    runs a job of m - current context and a task.wait_until expression over the overlapping global x; (2) a job of a.py runs while
+    its creator is suspended inside a function of m; (3) a chain trigger -> job of m -> job of a, creators finished."""
+    g = lambda s: [{"op": "getctx", "tag": s + ".gc"}, {"op": "listctx", "tag": s + ".lc"}]
+    p1 = {"order": ["file.a"], "events": ["ev1"], "files": {
+        "modules.m": {"auto": False, "body": [_who("modules.m"), {"op": "set", "x": "x", "v": "m.x0"},
+                      mkdef("j1", [{"op": "sleep", "t": 16}] + g("m.j1") + [{"op": "wexpr", "x": "x", "v": "m.x0", "t": 1024, "tag": "m.j1.wx"},
+                                   {"op": "wexpr", "x": "x", "v": "a.x0", "t": 1024, "tag": "m.j1.wx2"}, {"op": "read", "x": "x", "tag": "m.j1.x"}])]},
+        "file.a": {"auto": True, "body": [_who("file.a"), {"op": "set", "x": "x", "v": "a.x0"}, _imp("mod", "modules.m", "m"),
+                   mkdef("t1", [{"op": "sleep", "t": 1}, {"op": "task", "f": "j1", "via": "m"}] + g("a.t1"), "ev1")]}}}
+    p2 = {"order": ["file.a"], "events": ["ev1"], "files": {
+        "modules.m": {"auto": False, "body": [_who("modules.m"), {"op": "set", "x": "x", "v": "m.x0"},
+                      mkdef("f", [{"op": "sleep", "t": 4096}] + g("m.f"))]},
+        "file.a": {"auto": True, "body": [_who("file.a"), {"op": "set", "x": "x", "v": "a.x0"}, _imp("from", "modules.m", "", ["f"]),
+                   mkdef("j1", [{"op": "sleep", "t": 16}] + g("a.j1") + [{"op": "wexpr", "x": "x", "v": "a.x0", "t": 1024, "tag": "a.j1.wx"},
+                                {"op": "wexpr", "x": "x", "v": "m.x0", "t": 1024, "tag": "a.j1.wx2"}]),
+                   mkdef("t1", [{"op": "sleep", "t": 1}, {"op": "task", "f": "j1", "via": ""}, {"op": "call", "f": "f", "via": ""}] + g("a.t1"), "ev1")]}}}
+    p3 = {"order": ["file.a"], "events": ["ev1"], "files": {
+        "modules.m": {"auto": False, "body": [_who("modules.m"), {"op": "set", "x": "x", "v": "m.x0"},
+                      mkdef("j1", [{"op": "sleep", "t": 16}, {"op": "dcall", "f": "_cb", "via": "", "cb": ""}] + g("m.j1") + [{"op": "task", "f": "hk", "via": ""}])]},
+        "file.a": {"auto": True, "body": [_who("file.a"), {"op": "set", "x": "x", "v": "a.x0"}, _imp("mod", "modules.m", "m"),
+                   mkdef("g", g("a.g") + [{"op": "wexpr", "x": "x", "v": "a.x0", "t": 1024, "tag": "a.g.wx"}]),
+                   {"op": "sethook", "m": "m", "f": "g"},
+                   mkdef("t1", [{"op": "sleep", "t": 1}, {"op": "task", "f": "j1", "via": "m"}], "ev1")]}}}
+    return _variants((("ctxbound/task-runs-module-job", p1), ("ctxbound/creator-suspended-elsewhere", p2), ("ctxbound/task-chain-through-hook", p3)))
+
+
+def decorator_programs():
+    """Function values made by another file's code (re-executed on every run, both decorator subsystems): (1) a plain decorator of
+    m whose closure writes m's global x, applied with decorator syntax in a.py (which has an x of its own) and called by a.py itself -
+    at file level, from a function, from a trigger; (2) the same closure as the entry point of a trigger (@event_trigger above @m.d);
+    (3) explicit application and a factory call, called through a third file's callback."""
+    wd = {"op": "ldef", "f": "wd", "body": [{"op": "read", "x": "x", "tag": "m.wd.x"}, {"op": "set", "x": "x", "v": "m.wd.x1"}, {"op": "fcall"},
+                                            {"op": "getctx", "tag": "m.wd.gc"}, {"op": "read", "x": "WHO", "tag": "m.wd.who"}]}
+    mbody = [_who("modules.m"), {"op": "set", "x": "x", "v": "m.x0"},
+             mkdef("d", [{"op": "read", "x": "WHO", "tag": "m.d.who"}, wd, {"op": "ret", "x": "wd"}], kind="deco"),
+             mkdef("apply", [{"op": "dcall", "f": "_cb", "via": "", "cb": ""}, {"op": "read", "x": "WHO", "tag": "m.apply.who"}])]
+    fb = [{"op": "read", "x": "x", "tag": "a.f.x"}, {"op": "getctx", "tag": "a.f.gc"}]
+    tail = [{"op": "trycall", "f": "f", "via": "", "tag": "a.t"}, {"op": "read", "x": "x", "tag": "a.x"}, {"op": "read", "x": "f", "tag": "a.f"},
+            {"op": "readattr", "m": "m", "x": "x", "tag": "a.mx"}]
+    p1 = {"order": ["file.a"], "events": ["ev1"], "files": {
+        "modules.m": {"auto": False, "body": mbody},
+        "file.a": {"auto": True, "body": [_who("file.a"), {"op": "set", "x": "x", "v": "a.x0"}, _imp("mod", "modules.m", "m"), _imp("from", "modules.m", "", ["d"]),
+                   mkdef("f", fb, deco="d"), mkdef("g", [{"op": "call", "f": "f", "via": ""}, {"op": "read", "x": "x", "tag": "a.g.x"}])] + tail + [
+                   {"op": "trycall", "f": "g", "via": "", "tag": "a.t2"},
+                   mkdef("t1", [{"op": "sleep", "t": 1}, {"op": "call", "f": "f", "via": ""}, {"op": "dcall", "f": "apply", "via": "m", "cb": "f"},
+                                {"op": "read", "x": "x", "tag": "a.t1.x"}, {"op": "getctx", "tag": "a.t1.gc"}], "ev1")]}}}
+    p2 = {"order": ["file.a"], "events": ["ev1"], "files": {
+        "modules.m": {"auto": False, "body": mbody},
+        "file.a": {"auto": True, "body": [_who("file.a"), {"op": "set", "x": "x", "v": "a.x0"}, _imp("mod", "modules.m", "m"),
+                   mkdef("t1", [{"op": "sleep", "t": 1}, {"op": "read", "x": "x", "tag": "a.t1.x"}, {"op": "getctx", "tag": "a.t1.gc"},
+                                {"op": "set", "x": "x", "v": "a.t1.x1"}], "ev1", "d", "m"),
+                   {"op": "read", "x": "t1", "tag": "a.rt1"}]}}}
+    p3 = {"order": ["file.a", "file.b"], "events": ["ev1"], "files": {
+        "modules.m": {"auto": False, "body": mbody},
+        "file.a": {"auto": True, "body": [_who("file.a"), {"op": "set", "x": "x", "v": "a.x0"}, _imp("mod", "modules.m", "m"),
+                   mkdef("f", fb), {"op": "bindcall", "x": "f", "f": "d", "via": "m", "arg": "f"},
+                   {"op": "bindcall", "x": "g", "f": "d", "via": "m", "arg": ""}] + tail + [{"op": "trycall", "f": "g", "via": "", "tag": "a.t2"},
+                   {"op": "sethook", "m": "m", "f": "f"}]},
+        "file.b": {"auto": True, "body": [_who("file.b"), {"op": "set", "x": "x", "v": "b.x0"}, _imp("star", "modules.m"),
+                   mkdef("h", [{"op": "set", "x": "x", "v": "b.h.x1"}], deco="d"),
+                   mkdef("t1", [{"op": "sleep", "t": 1}, {"op": "dcall", "f": "hk", "via": "", "cb": "h"}, {"op": "call", "f": "h", "via": ""},
+                                {"op": "read", "x": "x", "tag": "b.t1.x"}], "ev1")]}}}
+    return _variants((("decorator/syntax-called-by-decorating-file", p1), ("decorator/closure-as-trigger-entry", p2),
+                      ("decorator/explicit-factory-hook", p3)))
+
+
 WHAT = {
     "contexts": "the set of contexts that ran is not the one the documentation names for the imported files",
     "instances": "a file was executed more than once (more than one module instance)",
@@ -436,11 +703,20 @@ def validate(ctx, cases, label, report=True, split=1):
             if rj["clause"].startswith("machine:"):
                 raise MachineryFailure("generator produced a program outside the machine's domain (%s): %s" % (rj["clause"], c["id"]))
             sig = {"clause": rj["clause"], "explained": rj["why"] != ["unexplained"], "why": "+".join(rj["why"]) or "none"}
+            if rj["clause"] == "log" and (rj.get("exp") or rj["logpos"] <= len(c["obs"]["log"])):
+                # where the first differing observation was made (from its tag): kind of code . kind of observation
+                t = (rj["exp"][0]["tag"] if rj.get("exp") else c["obs"]["log"][rj["logpos"] - 1]["tag"]).split(".")
+                code = "file-level" if len(t) < 3 else "job" if t[1] in JOBS else "closure" if t[1][1:] in DECOS and t[1][0] == "w" else \
+                    "decorator" if t[1] in DECOS else "trigger-function" if t[1][0] == "t" and t[1][1:].isdigit() else "function"
+                kind = {"gc": "get_global_ctx", "lc": "list_global_ctx", "wx": "wait_until-expression", "r": "read", "ra": "read-through-module",
+                        "t": "call-outcome"}.get(t[-1].rstrip("0123456789"), "observation")
+                sig["at"] = code + "." + kind
             for fl in rj["why"]:
                 sig[fl] = True
             if c["masked"]:
                 sig["masked"] = True
-            ctx.report(sig, "%s [explained by %s]" % (WHAT.get(rj["clause"], rj["clause"]), sig["why"]),
+            ctx.report(sig, "%s [explained by %s%s]" % (WHAT.get(rj["clause"], rj["clause"]), sig["why"],
+                                                         "; first difference at " + sig["at"] if "at" in sig else ""),
                        {"prog": dict(c["prog"], pid=c["id"], legacy=c["legacy"], masked=c["masked"]), "verdict": rj,
                         "observed": c["obs"], "files": render({"files": c["prog"]["files"]})})
     return rejects
@@ -467,8 +743,48 @@ def selftest(ctx, cases, rejected):
         k = sorted(c3["obs"]["inst"])[-1]
         c3["obs"]["inst"][k] += 1                                                   # a second instance
         bad.append(c3)
-    if not bad:
-        raise MachineryFailure("selftest: nothing to corrupt")
+    # round 3: observations of the new kinds - the context a context-bound function reports inside a function / task, the
+    # outcome of a task.wait_until expression, the defining context of a closure bound by another file
+    import re
+    kinds = {"ctx": 0, "wexpr": 0, "closure": 0}
+    for c in cases:
+        if c["id"] in rejected:
+            continue
+        o = c["obs"]
+        if kinds["ctx"] < 12:
+            idx = [i for i, e in enumerate(o["log"]) if re.search(r"\.[a-z]+\d?\.(gc|lc)\d*$", e["tag"]) and e["v"].get("k") == "data"]
+            if idx:
+                c4 = copy.deepcopy(c)
+                c4["id"] = "corrupt-ctx/" + c["id"]
+                e = c4["obs"]["log"][idx[-1]]
+                others = sorted(set(c["prog"]["files"]) - {e["v"]["v"]})
+                e["v"] = {"k": "data", "v": others[0] if others else "file.zz"}      # the context-bound function answered for another file
+                bad.append(c4)
+                kinds["ctx"] += 1
+        if kinds["wexpr"] < 12:
+            idx = [i for i, e in enumerate(o["log"]) if re.search(r"\.wx\d*$", e["tag"]) and e["v"].get("v") in ("state", "timeout")]
+            if idx:
+                c5 = copy.deepcopy(c)
+                c5["id"] = "corrupt-wexpr/" + c["id"]
+                e = c5["obs"]["log"][idx[0]]
+                e["v"] = {"k": "data", "v": "timeout" if e["v"]["v"] == "state" else "state"}   # the expression saw another file's global
+                bad.append(c5)
+                kinds["wexpr"] += 1
+        if kinds["closure"] < 12:
+            hit = [(t, n) for t, tab in o["tabs"].items() for n, v in tab.items()
+                   if v.get("k") == "func" and v["name"].startswith("w") and v["ctx"] != t]
+            if hit:
+                c6 = copy.deepcopy(c)
+                c6["id"] = "corrupt-closure/" + c["id"]
+                t, n = sorted(hit)[0]
+                c6["obs"]["tabs"][t][n]["ctx"] = t                                 # the closure belongs to the file that bound it
+                bad.append(c6)
+                kinds["closure"] += 1
+    if not bad or not all(kinds.values()):
+        raise MachineryFailure("selftest: nothing to corrupt (%s)" % kinds)
+    ctx.cov["selftest_corruption_kinds"] = dict(kinds, table=sum(1 for c in bad if c["id"].startswith("corrupt-table/")),
+                                                log=sum(1 for c in bad if c["id"].startswith("corrupt-log/")),
+                                                inst=sum(1 for c in bad if c["id"].startswith("corrupt-inst/")))
     rej = {r["id"] for r in validate(ctx, bad, "corrupt", report=False)}
     missed = [c["id"] for c in bad if c["id"] not in rej]
     if missed:
@@ -478,49 +794,69 @@ def selftest(ctx, cases, rejected):
 
 def model_check(ctx):
     """(M): invariants over all programs of the grammar; mutant flags must violate their invariant."""
-    inv = "INVARIANT InvWrites\nINVARIANT InvPointer\nINVARIANT InvInstance\nINVARIANT InvOk\nCHECK_DEADLOCK FALSE\n"
+    inv = "INVARIANT InvWrites\nINVARIANT InvPointer\nINVARIANT InvInstance\nINVARIANT InvCtxFuncs\nINVARIANT InvOk\nCHECK_DEADLOCK FALSE\n"
 
     def cfg(name, flags, opsa, mode, invs=inv):
         path = os.path.join(ctx.scratch, name + ".cfg")
         open(path, "w").write("SPECIFICATION Spec\nCONSTANTS\n Flags = %s\n OpsA = %d\n Mode = \"%s\"\n%s" % (flags, opsa, mode, invs))
         return path
     wit = "INVARIANT WitTrack\nPOSTCONDITION WitReport\nCHECK_DEADLOCK FALSE\n"
-    runs = [("statement: two files + module, every import form, %d free statements" % ctx.pick(1, 2),
-             cfg("C_main", "{}", ctx.pick(1, 2), "plain"), None),
-            ("statement: package with relative imports of every form", cfg("C_rel", "{}", 1, "rel"), None),
-            ("statement: concurrent / re-entrant / recursive activations of module functions, all interleavings",
-             cfg("C_conc", "{}", 1, "conc"), None),
-            ("mutant flag callee-in-caller-ctx", cfg("C_m1", '{"callee-in-caller-ctx"}', 1, "plain"), ("InvPointer", "InvWrites")),
-            ("mutant flag no-restore-on-raise", cfg("C_m2", '{"no-restore-on-raise"}', 1, "plain"), ("InvPointer", "InvWrites")),
-            ("mutant flag star-second-instance", cfg("C_m3", '{"star-second-instance"}', 1, "plain"), ("InvInstance",)),
+    both = inv.replace("CHECK_DEADLOCK FALSE\n", "") + wit      # the statement's invariants and the witnesses in one run (one worker)
+    W1 = ("W_NoCrossCall", "W_NoCaught", "W_NoSharedSeen", "W_NoTask")
+    W2 = ("W_NoInterleave", "W_NoReentry", "W_NoRecursion")
+    W3 = ("W_NoWrapperCall", "W_NoWrappedBack", "W_NoDecoTrigger", "W_NoFactory")
+    W4 = ("W_NoTaskCrossing", "W_NoCreatorElsewhere", "W_NoTimeout")
+    # (label, cfg, kind, expected): kind "stmt" = invariants must hold; "wit" = witnesses must be reached (with "stmt+wit" both);
+    # "viol" = one of the expected invariants must be violated
+    runs = [("statement: package with relative imports of every form", cfg("C_rel", "{}", 1, "rel"), "stmt", ()),
+            ("statement + witnesses: concurrent / re-entrant / recursive activations of module functions, all interleavings "
+             "(interleaved activations, re-entrant callback chain, recursion across files)", cfg("C_conc", "{}", 1, "conc", both), "stmt+wit", W2),
+            ("statement + witnesses: closures made by another file's decorator / factory - decorator syntax, below @event_trigger, explicit, "
+             "factory (closure called by the decorating file, calling back, as a trigger's entry point, from a factory)",
+             cfg("C_deco", "{}", 1, "deco", both), "stmt+wit", W3),
+            ("statement + witnesses: context-bound functions in created tasks running another file's code (task crossing a file boundary, "
+             "creator suspended in another context, wait_until expression timing out)", cfg("C_task", "{}", 1, "task", both), "stmt+wit", W4),
+            ("mutant flag callee-in-caller-ctx", cfg("C_m1", '{"callee-in-caller-ctx"}', 1, "plain"), "viol", ("InvPointer", "InvWrites")),
+            ("mutant flag no-restore-on-raise", cfg("C_m2", '{"no-restore-on-raise"}', 1, "plain"), "viol", ("InvPointer", "InvWrites")),
+            ("mutant flag star-second-instance", cfg("C_m3", '{"star-second-instance"}', 1, "plain"), "viol", ("InvInstance",)),
             ("mutant flag scope-on-function (caller context saved per function object)",
-             cfg("C_m5", '{"scope-on-function"}', 1, "conc"), ("InvPointer", "InvWrites")),
-            ("historic flag rel-sibling-name", cfg("C_m4", '{"rel-sibling-name"}', 1, "rel"), ("InvInstance",)),
-            ("witnesses (cross-context call, exception across contexts, shared module state, created task)",
-             cfg("C_w", "{}", 1, "plain", wit), ("witnesses", "W_NoCrossCall", "W_NoCaught", "W_NoSharedSeen", "W_NoTask")),
-            ("witnesses (interleaved activations, re-entrant callback chain, recursion across files)",
-             cfg("C_w2", "{}", 1, "conc", wit), ("witnesses", "W_NoInterleave", "W_NoReentry", "W_NoRecursion"))]
-    outs = parallel([(lambda c=c, e=e: tlc.run("Contexts", c, ctx.scratch, workers=1 if (e and e[0] == "witnesses") else max(1, min(4, CAP // 2)),
-                                                env=JVM, timeout=3000))
-                     for (_, c, e) in runs], max_workers=max(1, min(len(runs), CAP // 2)))
+             cfg("C_m5", '{"scope-on-function"}', 1, "conc"), "viol", ("InvPointer", "InvWrites")),
+            ("mutant flag switch-by-def-site (context switch decided by the file that last bound the function with a def)",
+             cfg("C_m6", '{"switch-by-def-site"}', 1, "deco"), "viol", ("InvPointer", "InvWrites", "InvCtxFuncs")),
+            ("mutant flag task-funcs-of-creator (a created task uses its creator's context-bound functions)",
+             cfg("C_m7", '{"task-funcs-of-creator"}', 1, "task"), "viol", ("InvCtxFuncs",)),
+            ("historic flag rel-sibling-name", cfg("C_m4", '{"rel-sibling-name"}', 1, "rel"), "viol", ("InvInstance",))]
+    lab1 = "two files + module, every import form, %d free statement(s)"
+    wl1 = " (cross-context call, exception across contexts, shared module state, created task)"
+    if ctx.quick:
+        runs.insert(0, ("statement + witnesses: " + lab1 % 1 + wl1, cfg("C_main", "{}", 1, "plain", both), "stmt+wit", W1))
+    else:
+        runs.insert(0, ("statement: " + lab1 % 2, cfg("C_main", "{}", 2, "plain"), "stmt", ()))
+        runs.append(("witnesses" + wl1, cfg("C_w", "{}", 1, "plain", wit), "wit", W1))
+    par = max(1, min(len(runs), CAP // 2))
+    # runs that must end in a violation search depth-first with one worker: a counter-example turns up after a few programs
+    dfs = {"JAVA_TOOL_OPTIONS": JVM["JAVA_TOOL_OPTIONS"] + " -Dtlc2.tool.queue.IStateQueue=StateDeque"}
+    outs = parallel([(lambda c=c, k=k: tlc.run("Contexts", c, ctx.scratch, workers=1 if ("wit" in k or k == "viol") else max(1, min(4, CAP // par)),
+                                                env=dfs if k == "viol" else JVM, timeout=3000))
+                     for (_, c, k, _) in runs], max_workers=par)
     nw = 0
-    for (label, _, expect), res in zip(runs, outs):
+    for (label, _, kind, expect), res in zip(runs, outs):
         ctx.add_tlc(res, label)
-        if expect and expect[0] == "witnesses":
-            seen = set()
-            for i in res.infos:
-                seen |= set(i.get("seen", []))
-            missing = [w for w in expect[1:] if w not in seen]
-            if missing or not res.ok:
-                raise MachineryFailure("witnesses not reached in Contexts.tla: %s" % (missing or res.violated))
-            nw += len(expect) - 1
-        elif expect is None:
-            if not res.ok:
-                ctx.report({"clause": "model:" + res.violated}, "Contexts.tla violates %s (%s)" % (res.violated, label), {"cex": res.cex})
-        else:
+        if kind == "viol":
             if res.ok or res.violated not in expect:
                 raise MachineryFailure("%s: expected a violation of %s, got %s" % (label, expect, res.violated))
             nw += 1
+            continue
+        if not res.ok:
+            ctx.report({"clause": "model:" + res.violated}, "Contexts.tla violates %s (%s)" % (res.violated, label), {"cex": res.cex})
+        elif "wit" in kind:
+            seen = set()
+            for i in res.infos:
+                seen |= set(i.get("seen", []))
+            missing = [w for w in expect if w not in seen]
+            if missing:
+                raise MachineryFailure("witnesses not reached in Contexts.tla: %s (%s)" % (missing, label))
+            nw += len(expect)
     ctx.cov["expected_violations_seen"] = nw
 
 
@@ -539,7 +875,8 @@ def main(ctx):
     skip_model = bool(os.environ.get("VERIF_SKIP_MODEL"))          # mutant runs: the model does not depend on the code
     th = [(lambda: None) if skip_model else (lambda: model_check(ctx)), lambda: run_workers("harness.drivers.c11", "work", jobs, ctx.scratch, nproc=nproc),
           lambda: run_workers("harness.drivers.c11", "work_replay",
-                              [{"prog": p, "cwd": cwd} for p in [copy.deepcopy(WITNESS)] + reentrant_programs()], ctx.scratch, nproc=min(3, CAP))]
+                              [{"prog": p, "cwd": cwd} for p in [copy.deepcopy(WITNESS)] + reentrant_programs() + ctxbound_programs() + decorator_programs()],
+                              ctx.scratch, nproc=min(3, CAP))]
     outs = parallel(th, max_workers=3 if CAP >= 8 else 1)
     cases = [c for r in outs[1] for c in r] + [c for r in outs[2] for c in r]
     rejects = validate(ctx, cases, "main", split=ctx.pick(4, 8))
@@ -563,17 +900,52 @@ def main(ctx):
                 if s["op"] == "def":
                     if s["trig"]:
                         fs.add("trigger")
+                    if s.get("deco"):
+                        fs.add("deco:syntax" + (":on-trigger" if s["trig"] else "") + (":via-module" if s.get("dvia") else ""))
+                    if s.get("kind") == "deco":
+                        fs.add("deco:def:" + ("closure" if any(t["op"] == "ldef" for t in s["body"]) else "identity"))
+                    if s["f"] in JOBS:
+                        fs.add("job")
+                    inner = list(s["body"])
                     for t in s["body"]:
-                        fs.add("in-func:" + t["op"])
+                        if t["op"] == "ldef":
+                            inner += [dict(u, _w=True) for u in t["body"]]
+                    for k, t in enumerate(inner):
+                        fs.add(("in-closure:" if t.get("_w") else "in-func:") + t["op"])
+                        if t["op"] == "task" and not t.get("_w") and k < len(s["body"]) - 1:
+                            fs.add("task:creator-goes-on")
+                        if t["op"] == "task" and t.get("via"):
+                            fs.add("task:via-module")
                         if t["op"] == "dcall":
-                            fs.add("dcall:" + ("callback" if t["f"] == "_cb" else "recursion" if t["f"] == s["f"] else "other"))
+                            fs.add("dcall:" + ("callback" if t["f"] == "_cb" else "hook" if t["f"] == "hk" else "recursion" if t["f"] == s["f"] else "other"))
                             if t["cb"]:
                                 fs.add("dcall:passes-callback")
+                if s["op"] == "bindcall":
+                    fs.add("deco:" + ("explicit" if s["arg"] else "factory"))
+                if s["op"] == "sethook":
+                    fs.add("top:sethook")
                 if s["op"] in ("setctx", "setattr", "trycall"):
                     fs.add("top:" + s["op"])
         tags = {e["tag"]: e["v"] for e in c["obs"]["log"]}
         if any(v == {"k": "data", "v": "caught"} for v in tags.values()):
             fs.add("exception-crossed-a-call")
+        # what actually ran (from the recording): closures of decorators, jobs, both outcomes of wait_until expressions
+        for e in c["obs"]["log"]:
+            part = e["tag"].split(".")
+            if len(part) == 3 and part[1].startswith("w") and part[1][1:] in DECOS:
+                fs.add("ran:closure" + ("" if part[0] == "?" else ""))
+            if len(part) == 3 and part[1] in JOBS:
+                fs.add("ran:job")
+                if part[2].startswith(("gc", "lc", "wx")):
+                    fs.add("ran:context-bound-function-in-job")
+            if part[-1].startswith("wx") and e["v"].get("v") in ("state", "timeout"):
+                fs.add("wexpr:" + e["v"]["v"])
+        for t, tab in c["obs"]["tabs"].items():
+            for n, v in tab.items():
+                if v.get("k") == "func" and v["ctx"] != t and v["name"].startswith("w"):
+                    fs.add("bound:closure-of-another-file")
+                if n == "hk" and v.get("k") == "func" and v["ctx"] != t:
+                    fs.add("bound:hook-of-another-file")
         for x in fs:
             feats[x] = feats.get(x, 0) + 1
         cross = any(e["v"].get("k") == "func" for e in c["obs"]["log"]) or len(c["obs"]["inst"]) >= 2
@@ -582,7 +954,9 @@ def main(ctx):
     ctx.cov["feature_coverage"] = feats
     need = ["import:mod", "import:from", "import:star", "import:mod:rel", "import:from:rel", "import:star:rel", "trigger", "in-func:task",
             "in-func:raise", "top:setctx", "exception-crossed-a-call", "in-func:sleep", "dcall:callback", "dcall:recursion",
-            "dcall:passes-callback"]
+            "dcall:passes-callback", "deco:syntax", "deco:syntax:via-module", "deco:explicit", "deco:factory", "deco:def:closure", "job",
+            "task:creator-goes-on", "in-func:getctx", "in-func:listctx", "in-func:wexpr", "in-closure:fcall", "ran:closure", "ran:job",
+            "ran:context-bound-function-in-job", "wexpr:state", "wexpr:timeout", "bound:closure-of-another-file", "bound:hook-of-another-file"]
     if [x for x in need if not feats.get(x)]:
         raise MachineryFailure("features never generated: %s" % [x for x in need if not feats.get(x)])
     ctx.cov["distinct_nontrivial"] = len(nontrivial)
@@ -590,7 +964,11 @@ def main(ctx):
                        "modules/k/__init__.py + u.py, v.py}: overlapping global names x, y, _p, f, g, h; import m / import m as mm / from m "
                        "import names / from m import * / from . import u / from .u import names / from .u import *; functions that set "
                        "their globals, assign locals, read, call and try-call each other across files (directly and through module "
-                       "objects), raise; @event_trigger functions and task.create; pyscript.set_global_ctx / get_global_ctx; both decorator "
+                       "objects), raise; @event_trigger functions and task.create; pyscript.set_global_ctx / get_global_ctx; plain "
+                       "decorators / factories of one file returning closures, applied by others (@d, @m.d, below @event_trigger, f = d(f), "
+                       "g = m.d()); functions stored into another file's globals (m.hk = f) and called there; context-bound functions "
+                       "(get_global_ctx, list_global_ctx, task.wait_until expressions over overlapping globals) anywhere incl. created tasks; "
+                       "jobs (task entry points of any file, started with task.create(j) / task.create(m.j) while the creator goes on); both decorator "
                        "subsystems; unmasked and masked (no relative import in a package member other than __init__) generation.  "
                        "non-trivial = at least two contexts ran and at least one observation was logged; distinct by program text")
     for c in cases[:2]:
@@ -598,7 +976,12 @@ def main(ctx):
                     "log": c["obs"]["log"][:12], "executions": c["obs"]["inst"]})
     selftest(ctx, cases, rejected)
     ctx.assumptions += [
-        "functions have no parameters and do not suspend: every trigger / task run is atomic; events are fired one at a time at quiescence",
+        "functions only take the depth budget and a callback (decorators: the wrapped function); task.create only in entry points of the event "
+        "phase (trigger functions, jobs); every job is started by at most one task.create and begins with a sleep of its own (no two "
+        "evaluators wake at the same instant); at most one trigger function per program is decorated",
+        "task.wait_until expressions name a state variable (set to '1') besides the global: both decorator subsystems ignore expressions "
+        "without one in different ways, which is not C11's business; pyscript.set_global_ctx only at file level",
+        "function values are observed as (defining context, name in the def statement): the integration renames decorated function objects",
         "names used as functions (f, g, h) are only ever bound to functions, data names only to strings; classes are not generated (C03)",
         "top-level code of a generated file never raises (calls are try-calls); import graph acyclic; dotted imports (import k.u) not generated",
         "from m import * : __all__ is not used; names starting with '_' are not copied (Python semantics)",
